@@ -2,7 +2,7 @@
    region lookup returns the stored entry; the open-time values are those of the metadata items. *)
 From Coq Require Import String ZArith List Bool Lia.
 From DH Require Import Base.Arith Base.Plan Base.Layout Gen.Consts Gen.Layouts
-     Model.MetaCodec Model.MetaVhdx Proofs.MetaCodec.
+     Model.MetaCodec Model.MetaVhdx Proofs.MetaCodec Proofs.MetaText.
 Import ListNotations.
 Open Scope list_scope.
 Open Scope Z_scope.
@@ -119,8 +119,9 @@ Proof. split; reflexivity. Qed.
 Ltac assoc := repeat rewrite <- app_assoc; reflexivity.
 
 Section Locator.
-  Variables (enc16 : list Z -> list Z) (dec16 : list Z -> option (list Z)).
-  Hypothesis dec_enc : forall s, dec16 (enc16 s) = Some s.
+  Variables (enc16 : list Z -> list Z) (dec16 : list Z -> option (list Z)) (ok : list Z -> Prop).
+  Hypothesis dec_enc : forall s, ok s -> dec16 (enc16 s) = Some s.
+  Definition kv_texts_ok (kv : list Z * list Z) : Prop := ok (fst kv) /\ ok (snd kv).
 
   Definition entry_rec (ko vo kl vl : Z) : record :=
     [("key_offset"%string, VInt ko); ("value_offset"%string, VInt vo);
@@ -196,11 +197,14 @@ Section Locator.
   Qed.
 
   Lemma entries_read kvs : forall buf PRE post base d pos,
+    Forall kv_texts_ok kvs ->
     buf = PRE ++ locator_strings enc16 kvs ++ post -> zlen PRE = base + pos ->
     locator_entries dec16 (buf_reader buf) base (entry_recs pos kvs) d
     = Ok (fold_left (fun d kv => dict_put (fst kv) (snd kv) d) kvs d).
   Proof.
-    induction kvs as [|[k v] r IH]; intros buf PRE post base d pos Hb Hpre; [reflexivity|].
+    induction kvs as [|[k v] r IH]; intros buf PRE post base d pos Hok Hb Hpre; [reflexivity|].
+    pose proof (Forall_inv Hok) as [Hkok Hvok]. cbn [fst snd] in Hkok, Hvok.
+    pose proof (Forall_inv_tail Hok) as Hok'.
     cbn [entry_recs locator_entries locator_strings fold_left fst snd].
     change (vint (entry_rec pos (pos + zlen (enc16 k)) (zlen (enc16 k)) (zlen (enc16 v))) "key_offset") with pos.
     change (vint (entry_rec pos (pos + zlen (enc16 k)) (zlen (enc16 k)) (zlen (enc16 v))) "key_length")
@@ -218,20 +222,21 @@ Section Locator.
     { rewrite Hb. replace (PRE ++ (enc16 k ++ enc16 v ++ locator_strings enc16 r) ++ post)
         with ((PRE ++ enc16 k) ++ enc16 v ++ (locator_strings enc16 r ++ post)) by assoc.
       apply buf_reader_mid; [rewrite zlen_app; lia|reflexivity]. }
-    rewrite Hk, Hv, !dec_enc. cbn [of_option bind].
+    rewrite Hk, Hv, (dec_enc k Hkok), (dec_enc v Hvok). cbn [of_option bind].
     apply (IH buf (PRE ++ enc16 k ++ enc16 v) post).
+    - exact Hok'.
     - rewrite Hb. assoc.
     - rewrite !zlen_app. lia.
   Qed.
 
   (* ParentLocator(render type kvs) exposes the stored type and exactly the stored key/value pairs *)
   Theorem locator_roundtrip type_le kvs pre post o :
-    o = zlen pre -> zlen type_le = 16 -> zlen kvs < 2 ^ 16 ->
+    o = zlen pre -> zlen type_le = 16 -> zlen kvs < 2 ^ 16 -> Forall kv_texts_ok kvs ->
     kvs_ok (vhdx_parent_locator_header_size + zlen kvs * vhdx_parent_locator_entry_size) kvs ->
     parent_locator dec16 (buf_reader (pre ++ locator_render enc16 type_le kvs ++ post)) o
     = Ok {| pl_type := uuid_of_bytes_le type_le; pl_entries := dict_of kvs |}.
   Proof.
-    intros -> Ht Hn Hok. unfold parent_locator, locator_render.
+    intros -> Ht Hn Htx Hok. unfold parent_locator, locator_render.
     change vhdx_parent_locator_header_size with 20 in *. change vhdx_parent_locator_entry_size with 12 in *.
     set (n := zlen kvs) in *. pose proof (zlen_nonneg kvs) as Hn0. fold n in Hn0.
     set (tbl := locator_table enc16 (20 + n * 12) kvs).
@@ -269,7 +274,20 @@ Section Locator.
     fold tbl.
     rewrite (entries_read kvs _ ((pre ++ hb) ++ tbl) post (zlen pre) [] (20 + n * 12)).
     - reflexivity.
+    - exact Htx.
     - fold strs. assoc.
     - rewrite !zlen_app, Hhl, Htl. lia.
   Qed.
 End Locator.
+
+(* with the model's own UTF-16-LE codec no codec hypothesis is left: any strings of Unicode scalar values *)
+Corollary locator_roundtrip_utf16 type_le kvs pre post o :
+  o = zlen pre -> zlen type_le = 16 -> zlen kvs < 2 ^ 16 ->
+  Forall (fun kv => Forall (fun c => scalar c = true) (fst kv) /\ Forall (fun c => scalar c = true) (snd kv)) kvs ->
+  kvs_ok utf16le_encode (vhdx_parent_locator_header_size + zlen kvs * vhdx_parent_locator_entry_size) kvs ->
+  parent_locator utf16le_decode (buf_reader (pre ++ locator_render utf16le_encode type_le kvs ++ post)) o
+  = Ok {| pl_type := uuid_of_bytes_le type_le; pl_entries := dict_of kvs |}.
+Proof.
+  intros. apply (locator_roundtrip utf16le_encode utf16le_decode (Forall (fun c => scalar c = true)) utf16le_roundtrip);
+    assumption.
+Qed.
